@@ -332,7 +332,7 @@ def run(tier='quick', repo=None):
     rep = Report(PROP, tier)
     rep.explanation = (
         'Decides, by exhaustive abstract interpretation over small finite domains with a ghost model of the byte stream: (a) chunk_stream: for every '
-        'alignment 1..4, mtu up to 9 (size = (mtu/align)*align as the only writer _set_mtu establishes) and 0..12 octets pending, input and flush '
+        'alignment 1..6, mtu up to 9 (13 for alignments 5 and 6) (size = (mtu/align)*align as the only writer _set_mtu establishes) and 0..12 octets pending, input and flush '
         'terminate, every extraction is between 1 and `size` octets and never more than the stream holds, input emits only full `size` units; '
         '(b) aggregate: for every output size 1..6, announced input size 0..7, fill level and incoming size, every emitted unit is non-empty and '
         '<= output size, the octets held afterwards fit the output size and equal the bookkeeping field, and octets are conserved (in + held = out + held\'); '
@@ -368,8 +368,8 @@ def run(tier='quick', repo=None):
         if key not in seen:
             seen[key] = True
             rep.add(rule, key, VIOLATED, '%s:%s' % (fnobj.file, f.line), what=str(f), first_state=state)
-    for align in range(1, 5):
-        for mtu in range(align + 1, 10):
+    for align in range(1, 7):
+        for mtu in range(align + 1, 10 if align < 5 else 14):
             size = (mtu // align) * align
             for R0 in range(0, 13):
                 # flush
@@ -383,6 +383,12 @@ def run(tier='quick', repo=None):
                     bad = [o for o in m.outputs if o is None or not (1 <= o <= size)]
                     if bad:
                         finding('R-progress', 'upipe_chunk_stream_flush', Finding('unit size out of range', fn.line, 'emitted %s with size=%d' % (m.outputs, size)), st, fn)
+                    elif any(o % align for o in m.outputs):
+                        finding('R-progress', 'upipe_chunk_stream_flush', Finding('unaligned unit', fn.line, 'emitted %s with alignment %d' % (m.outputs, align)), st, fn)
+                    elif sum(m.outputs) != R0 - (R0 % align):
+                        finding('R-progress', 'upipe_chunk_stream_flush', Finding('aligned octets not output', fn.line,
+                                'flush of %d pending octets emitted %s: %d octets, expected all but the unaligned tail (%d)' % (
+                                    R0, m.outputs, sum(m.outputs), R0 - (R0 % align))), st, fn)
                     else:
                         rep.add('R-progress', 'flush@' + st, HOLDS, fn.loc, outputs=m.outputs)
                 except Finding as f:
